@@ -12,7 +12,7 @@ ANCHORS = ["pyoma2.functions.fdd:SD_PreGER", "pyoma2.functions.fdd:SD_est", "pyo
 REQUIRED_MONITORS = ["one-recording@SD_PreGER", "one-recording@FDD_MS", "one-recording@EFDD_MS", "one-recording@pLSCF_MS",
                      "general-blocks@SD_PreGER", "gain-metamorphic@SD_PreGER"]
 ALL_STATES = [f"{m}|pov={p:g}" for m in ("per", "cor") for p in (0, 0.25, 0.5, 0.75)] + ["refs listed out of order", "4 setups", "3 references"]
-REQUIRED_STATES = ["per|pov=0", "per|pov=0.25", "per|pov=0.75", "cor|pov=0.25", "refs listed out of order", "recording amplitude < 1e-4", "one setup with gain < 1e-3", "identical reference records except in a middle setup", "second recording analysed with the same settings", "estimator left at the documented default"]
+REQUIRED_STATES = ["records longer than 2^17 samples", "per|pov=0", "per|pov=0.25", "per|pov=0.75", "cor|pov=0.25", "refs listed out of order", "recording amplitude < 1e-4", "one setup with gain < 1e-3", "identical reference records except in a middle setup", "second recording analysed with the same settings", "estimator left at the documented default"]
 RULE = ("one coloured-noise recording (2..9 channels, >= 4 segments) cut into 2..4 setups sharing 1..3 references at arbitrary positions; "
         "merged matrix compared line by line with SD_est(all channels in [ref|rov_1|rov_2..] order, ref) at the same nxseg/pov/estimator "
         "(tolerance 1e-9*cond(G_refref), lines with cond > 1e8 not judged); independent recordings: blocks recomputed from per-setup SD_est; "
@@ -85,12 +85,17 @@ def order_all(nref, chan_glob, reflist):
     return c02.expected_rows(nref, chan_glob, reflist)
 
 
-def run_one_fn(ctx, rng):
+def run_one_fn(ctx, rng, long_record=False):
     from pyoma2.functions import fdd
     from pyoma2.functions import gen as G_
 
     nset, nref, nrov, ndof, chan_glob, reflist = draw_layout(rng)
     nx, pov, method, N, fs = draw_params(rng)
+    if long_record:
+        # a long monitoring record (hours at 50-200 Hz): hundreds of thousands of samples per setup, thousands of segments
+        N = int(rng.integers(135000, 330000))
+        nx = int(rng.choice([256, 1000, 1024, 2048]))
+        ctx.state("records longer than 2^17 samples")
     X = gen.coloured(rng, ndof, N)
     if rng.random() < 0.4:
         amp = float(10 ** rng.uniform(-7, 4))  # records in other units: the relation is homogeneous in the amplitude
@@ -276,4 +281,6 @@ def run_case(ctx, case):
     if case["cls"] == "plumbing":
         return plumbing.run_case(ctx, case, gen.rng_of(case), PLUMB_FIELDS)
     rng = gen.rng_of(case)
+    if case["cls"] == "one_recording_fn" and case["k"] % 50 == 7:
+        return run_one_fn(ctx, rng, long_record=True)
     {"one_recording_fn": run_one_fn, "general_fn": run_general, "one_recording_classes": run_one_classes}[case["cls"]](ctx, rng)
